@@ -2,7 +2,7 @@
 # Re-run every saved seeded change against the checks recorded as catching it (quick tier).
 # Prints one line per (seed, check): CAUGHT / MISSED.  Leaves /repo clean.
 cd /verif
-for d in seeded/*/; do
+for d in ${SEED_GLOB:-seeded/*/}; do
   id=$(basename "$d")
   checks=$(python3 -c "import json;print(' '.join(json.load(open('$d/meta.json'))['caught_by']))")
   git -C /repo apply --check "$PWD/$d/patch.diff" 2>/dev/null || { echo "$id PATCH-DOES-NOT-APPLY"; continue; }
